@@ -219,6 +219,7 @@ class OrderedMultiDict(dict, MutableMappingSequence):
 
     get = abc.MutableMapping.get
     update = abc.MutableMapping.update
+    setdefault = abc.MutableMapping.setdefault
 
     def keys(self):
         return KeysView(self)
